@@ -48,6 +48,7 @@ class BinShift(Unit):
     functions = ("pulsarbat.transforms.transforms:freq_shift", "pulsarbat.core:Signal.like",
                  "pulsarbat.core:BasebandSignal.__init__", "pulsarbat.core:RadioSignal.__init__", "pulsarbat.core:Signal.__init__")
     witnesses = 1
+    variants = (None, "negzero")
 
     def patches(self):
         return standard_patches(concretize_int=True)
@@ -106,7 +107,7 @@ class BinShift(Unit):
         if S.symbolic:
             shift = S.quantity(m * binw, u.Hz) if marr is None else S.quantity(SymND(marr) * binw, u.Hz)
         else:
-            shift = (float(m) * float(binw)) * u.Hz if marr is None else (np.asarray(marr, dtype=float) * float(binw)) * u.Hz
+            shift = S.zero_sign(float(m) * float(binw)) * u.Hz if marr is None else S.zero_sign(np.asarray(marr, dtype=float) * float(binw)) * u.Hz
         return {"sig": sig, "z": z, "shift": shift, "full": full}
 
     def call(self, a):
